@@ -621,6 +621,8 @@ func c01Exec(c *Ctx, r *zsimrt.Run, sc *c01Scenario, class string, plan bool) {
 	er.SetPolicy(sc.Policy)
 	fs := Materialise(L)
 	base := RunLoad(L, fs, "", true)
+	c.Trace(fmt.Sprintf("base:%s:%s:%d", base.Kind(), base.PanicAt, base.IOEvents))
+	defer func() { c.Trace(fmt.Sprintf("exec:%016x", er.Digest())) }()
 	c.Count("class-"+class, 1)
 	c.Count("outcome-"+base.Kind(), 1)
 	c.Count("entry-"+L.Entry, 1)
@@ -676,6 +678,7 @@ func c01Exec(c *Ctx, r *zsimrt.Run, sc *c01Scenario, class string, plan bool) {
 	fs2 := Materialise(L)
 	fs2.Faults = faults
 	out := RunLoad(L, fs2, sc.Stub, true)
+	c.Trace(fmt.Sprintf("faulted:%s:%s:%d", out.Kind(), out.PanicAt, len(fs2.Events)))
 	c.Count("class-B", 1)
 	c.Count("faulted-outcome-"+out.Kind(), 1)
 	fired := 0
